@@ -34,7 +34,7 @@ def cases(tier, seed):
                  names=NAMES, payload="affine", base_blocks=(1, 3) if bf == 4 else (2, 4))
         if i % 4 == 3:
             g["full_refine"] = True
-        cs.append({"kind": "geom", "gen": g, "sel_seed": seed * 53 + i, "npos": 8 if tier == "quick" else 12})
+        cs.append({"kind": "geom", "gen": g, "sel_seed": seed * 53 + i, "npos": 8 if tier == "quick" else 12, "fmt": dict(ref_ratio_extra=rng.choice([0, 0, 1, 3]), trailing_blank=rng.random() < 0.7, close_blank=rng.random() < 0.3, floatfmt=rng.choice(["repr", "17g"]))})
     nsplit = 1 if tier == "quick" else 4
     for i in range(nsplit):
         nbx, nby = [(11, 1), (13, 1), (7, 2), (5, 3)][i % 4]     # 11, 13, 14 boxes: not divisible by the file count
